@@ -155,3 +155,12 @@ Proof.
   - inversion H; subst. apply andb_true_iff. split; [|apply IH; assumption].
     destruct (clash k n r) eqn:E; [apply clash_spec in E; contradiction | reflexivity].
 Qed.
+
+Lemma unlock_data_only_its_blob c pass data m :
+  unlock_data c pass data = Some m -> data = AEnc (lock_key_of c pass) empty m.
+Proof.
+  unfold unlock_data, adec. destruct data; try discriminate.
+  destruct (term_eqb data1 (lock_key_of c pass) && term_eqb data2 empty) eqn:E; [|discriminate].
+  apply andb_true_iff in E as [E1 E2]. apply term_eqb_eq in E1. apply term_eqb_eq in E2. subst.
+  intro H; inversion H; reflexivity.
+Qed.
